@@ -48,6 +48,8 @@ def record(seed, estimator="nonparametric"):
     for c in ("turnout", "dem", "gop"):
         hist[f"results_{c}"] = (hist[f"baseline_{c}"] * rnd.uniform(0.8, 1.2, len(hist))).round().astype(int)
     hist["results_turnout"] = np.maximum(hist["results_turnout"], hist["results_dem"] + hist["results_gop"])
+    for c in ("turnout", "dem", "gop"):
+        hist[f"results_{c}"] = hist[f"results_{c}"].astype(float)  # one dtype in every variant (one of them has a missing value)
     nonrep = cur[cur.percent_expected_vote < 100].geographic_unit_fips.tolist()
     rep = cur[cur.percent_expected_vote >= 100].geographic_unit_fips.tolist()
     variants = {"tok0": hist}
@@ -55,6 +57,11 @@ def record(seed, estimator="nonparametric"):
     m = h1.geographic_unit_fips.isin(nonrep)
     for c in ("turnout", "dem", "gop"):
         h1.loc[m, f"results_{c}"] = (h1.loc[m, f"results_{c}"] * 3 + 17).astype(int)
+    if seed % 2 == 0 and nonrep:
+        # ... and one of them has no recorded historical result at all (hidden is hidden: seeded change C10_H)
+        for c in ("turnout", "dem", "gop"):
+            h1[f"results_{c}"] = h1[f"results_{c}"].astype(float)
+            h1.loc[h1.geographic_unit_fips == nonrep[0], f"results_{c}"] = float("nan")
     variants["tok1"] = h1
     h2 = hist.copy()
     m2 = h2.geographic_unit_fips.isin(rep[:3])
